@@ -47,10 +47,11 @@ func docFeatures(es []ev.E) (features []string, dontCare bool) {
 	inArr := false
 	var bits uint64
 	var data []byte
+	misaligned := false // the current chunked bit array has a continued chunk that ends inside a byte
 	checkArr := func(at events.ArrayType, n uint64, d []byte) {
 		switch at {
 		case events.ArrayTypeBit:
-			if n%8 != 0 && len(d) > 0 && d[len(d)-1]>>(n%8) != 0 {
+			if !misaligned && n%8 != 0 && len(d) > 0 && d[len(d)-1]>>(n%8) != 0 {
 				add("bit-array-with-nonzero-padding-bits")
 			}
 		case events.ArrayTypeFloat16:
@@ -106,10 +107,14 @@ func docFeatures(es []ev.E) (features []string, dontCare bool) {
 			if inArr {
 				checkArr(at, bits, data) // the previous chunked array ends where the next one begins
 			}
-			at, inArr, bits, data = e.AT, true, 0, nil
+			at, inArr, bits, data, misaligned = e.AT, true, 0, nil, false
 		case ev.Chunk:
 			if inArr {
 				bits += e.U
+				if at == events.ArrayTypeBit && e.B && e.U%8 != 0 {
+					add("bit-array-chunk-not-byte-aligned") // a continued chunk that ends inside a byte
+					misaligned = true
+				}
 			}
 		case ev.Data:
 			if inArr {
@@ -294,6 +299,28 @@ func c03Run(c *fx.Ctx) {
 			doc := []ev.E{ev.EBD(), ev.EV(0), ev.ECustomBin(ct, []byte{1, 2}), ev.EED()}
 			if bin, _, err := codec.Encode(codec.CBE, doc, nil, true); err == nil {
 				convertCBE(c, bin, "custom-type-code")
+			}
+		}
+	}
+	// bit arrays in two chunks of 1..9 bits each: a continued chunk may end inside a byte
+	if c.Take() {
+		for n1 := uint64(1); n1 <= 9; n1++ {
+			for n2 := uint64(1); n2 <= 9; n2++ {
+				d1 := []byte{0xff, 0x01}[:(n1+7)/8]
+				d2 := []byte{0x55, 0x01}[:(n2+7)/8]
+				if n1%8 != 0 {
+					d1 = append([]byte{}, d1...)
+					d1[len(d1)-1] &= byte(1<<(n1%8)) - 1
+				}
+				if n2%8 != 0 {
+					d2 = append([]byte{}, d2...)
+					d2[len(d2)-1] &= byte(1<<(n2%8)) - 1
+				}
+				doc := []ev.E{ev.EBD(), ev.EV(0), ev.EABegin(events.ArrayTypeBit), ev.EChunk(n1, true), ev.EData(d1), ev.EChunk(n2, false), ev.EData(d2), ev.EED()}
+				if bin, _, err := codec.Encode(codec.CBE, doc, nil, true); err == nil {
+					c.Add("bit_chunk_cases", 1)
+					convertCBE(c, bin, "bit-array-two-chunks")
+				}
 			}
 		}
 	}
